@@ -4,7 +4,7 @@
 From ClapModel Require Import Base.Bytes Base.Machine Base.Utf8 Lex.OsStrExtModel.
 From ClapModel Require Import Parse.Cmd Parse.Build Parse.Valid Parse.Matcher Parse.Errors Parse.Validator Parse.Parser.
 From ClapModel Require Import ParseProofs.Actions ParseProofs.Unparse ParseProofs.UnparseProofs ParseProofs.UnparseTop
-                              ParseProofs.UnparseSub ParseProofs.UnparseTree ParseProofs.UnparseIdx ParseProofs.UnparseIdxTop.
+                              ParseProofs.UnparseSub ParseProofs.UnparseTrail ParseProofs.UnparseTree ParseProofs.UnparseIdx ParseProofs.UnparseIdxTop.
 From Coq Require Import ZArith List Bool.
 From RecordUpdate Require Import RecordSet.
 Import RecordSetNotations.
@@ -125,4 +125,19 @@ Module UnparseEx.
     [([113], [1]); ([102], [2]); ([118], [3]); ([118], [4]); ([111], [6]); ([111], [8]); ([109], [10; 11; 12]);
      ([118], [13]); ([109], [15]); ([115], [17]); ([114], [18; 19]); ([121], [21]); ([118], [22]); ([114], [23])].
   Proof. vm_compute. reflexivity. Qed.
+
+  (** [--] and what follows: prog --qu --mu A -- F -x R   (after [--] the token [-x] is a value) *)
+  Definition trinv : inv := ITrail [ItLong [113; 117]; ItLongSep [109; 117] [[65]]] [[70]; [45; 120]; [82]].
+  Example ex_trail_valid : valid_tree 3 c = true. Proof. vm_compute. reflexivity. Qed.
+  Example ex_trail_wf : wf_inv c trinv = true. Proof. vm_compute. reflexivity. Qed.
+  Example ex_trail_render : render_inv trinv = [[45; 45; 113; 117]; [45; 45; 109; 117]; [65]; [45; 45]; [70]; [45; 120]; [82]].
+  Proof. vm_compute. reflexivity. Qed.
+  Example ex_trail_parse :
+    groups_after (render_inv trinv) [109] = Some (Some [[[65]]]) /\
+    groups_after (render_inv trinv) [102] = Some (Some [[[70]]]) /\
+    groups_after (render_inv trinv) [114] = Some (Some [[[45; 120]; [82]]]) /\
+    idx_after (render_inv trinv) [114] = Some (Some [5; 6]) /\
+    denote_os c [114] (inv_occs c trinv) = Some [[[45; 120]; [82]]] /\
+    denote_idx_os c [114] (inv_occs c trinv) = Some [5; 6].
+  Proof. vm_compute. repeat split; reflexivity. Qed.
 End UnparseEx.
